@@ -1650,3 +1650,158 @@ func (fi *FuncInfo) validFacts(facts []Fact, at *ssa.BasicBlock, preds []*ssa.Ba
 	}
 	return out
 }
+
+
+// ---------------------------------------------------------------- R-PREFIX-COVER
+
+func init() {
+	reg(&Rule{ID: "R-PREFIX-COVER", Min: 3,
+		Doc: "the common-prefix/suffix helpers never stop early: going back from every return, the last comparison event is a mismatch (word count below the word size, unequal byte), the end of the byte loop over the remaining slice, a length-clamped tail word, or an emptiness test — never a fully equal word",
+		Run: rulePrefixCover})
+}
+
+func rulePrefixCover(c *Ctx) {
+	for _, fn := range c.allFuncs {
+		sig := fn.Signature
+		if !(sig.Recv() == nil && sig.Params().Len() == 2 && sig.Results().Len() == 1 && isIntType(sig.Results().At(0).Type()) &&
+			isByteSlice(sig.Params().At(0).Type()) && isByteSlice(sig.Params().At(1).Type()) && fn.Parent() == nil) {
+			continue
+		}
+		fi := c.info(fn)
+		name := fnName(fn)
+		// classify an edge p→s by the condition of p's branch
+		classify := func(p, s *ssa.BasicBlock) string {
+			last := fi.edgeLast(p, s)
+			if len(last) == 0 {
+				return ""
+			}
+			cd := unNot(last[0])
+			bo, ok := cd.V.(*ssa.BinOp)
+			if !ok {
+				return ""
+			}
+			// word count vs its width
+			for _, pr := range [][2]ssa.Value{{bo.X, bo.Y}, {bo.Y, bo.X}} {
+				if w := wordWidth(pr[0]); w > 0 {
+					if k, isC := constInt(pr[1]); isC && k == w {
+						fs := fi.factsOf([]Cond{cd})
+						if len(fs) == 1 && fs[0].Op == LE {
+							// c − w + 1 ≤ 0  (c < w): mismatch; w − c ≤ 0 (c ≥ w): full word equal
+							if fs[0].L.eq(fi.lin(pr[0]).addc(1 - w)) {
+								return "ok:mismatch in word"
+							}
+							if fs[0].L.eq(linConst(w).sub(fi.lin(pr[0]))) {
+								return "bad:full word equal"
+							}
+						}
+						if fs := fi.factsOf([]Cond{cd}); len(fs) == 1 && fs[0].Op == EQ {
+							return "bad:full word equal"
+						}
+						if fs := fi.factsOf([]Cond{cd}); len(fs) == 1 && fs[0].Op == NE {
+							return "ok:mismatch in word"
+						}
+					}
+				}
+			}
+			// unequal bytes
+			if isByteLoad(bo.X) && isByteLoad(bo.Y) {
+				ne := (bo.Op == token.NEQ) == cd.True
+				if bo.Op == token.EQL || bo.Op == token.NEQ {
+					if ne {
+						return "ok:unequal byte"
+					}
+					return "" // equal byte: keep looking (the loop continues)
+				}
+			}
+			// end of a range loop / emptiness: facts of the form  len(X) − idx − 1 ≤ 0  or  x ≤ 0
+			fs := fi.factsOf([]Cond{cd})
+			if len(fs) == 1 && fs[0].Op == LE {
+				l := fs[0].L
+				hasLen, pos := false, 0
+				for a, co := range l.t {
+					if strings.HasPrefix(a, "len(") && co == 1 {
+						hasLen = true
+					}
+					if co == 1 {
+						pos++
+					}
+				}
+				if hasLen && pos == 1 && l.c <= 0 {
+					// len(X) ≤ idx + const: nothing (more) to compare in X
+					onlyIdx := true
+					for a, co := range l.t {
+						if co == -1 {
+							if _, isPhi := fi.atomValues()[a].(*ssa.Phi); !isPhi {
+								onlyIdx = false
+							}
+						}
+					}
+					if onlyIdx && (len(l.t) == 2 || (len(l.t) == 1 && l.c == 0)) {
+						return "ok:remaining slice exhausted"
+					}
+				}
+				// x ≤ 0 for an int remaining count
+				if len(l.t) == 1 && l.c >= 0 && !hasLen {
+					for _, co := range l.t {
+						if co == 1 {
+							return "ok:nothing remains"
+						}
+					}
+				}
+			}
+			return ""
+		}
+		// blocks that add a clamped tail word count are a justified end as well
+		clampBlk := map[*ssa.BasicBlock]bool{}
+		for _, b := range fn.Blocks {
+			for _, in := range b.Instrs {
+				if add, ok := in.(*ssa.BinOp); ok && add.Op == token.ADD {
+					for _, op := range []ssa.Value{add.X, add.Y} {
+						if ph, isPhi := op.(*ssa.Phi); isPhi && ph.Block() == b {
+							for _, e := range ph.Edges {
+								if wordWidth(e) > 0 {
+									clampBlk[b] = true
+								}
+							}
+						}
+					}
+				}
+			}
+		}
+		nRet := 0
+		for _, rb := range fn.Blocks {
+			r, ok := rb.Instrs[len(rb.Instrs)-1].(*ssa.Return)
+			if !ok {
+				continue
+			}
+			nRet++
+			key := fmt.Sprintf("%s:return#%d", name, nRet)
+			bad := ""
+			seen := map[*ssa.BasicBlock]bool{}
+			var back func(b *ssa.BasicBlock, depth int)
+			back = func(b *ssa.BasicBlock, depth int) {
+				if bad != "" || seen[b] || depth > 40 {
+					return
+				}
+				seen[b] = true
+				if clampBlk[b] {
+					return
+				}
+				if len(b.Preds) == 0 {
+					return // entry reached: nothing was compared and nothing was skipped only if the slices are empty — covered by the emptiness events above; an event-free path means no loop was entered
+				}
+				for _, p := range b.Preds {
+					switch cl := classify(p, b); {
+					case strings.HasPrefix(cl, "ok:"):
+					case strings.HasPrefix(cl, "bad:"):
+						bad = fmt.Sprintf("the return at %s can be reached directly after a fully equal word (edge from block %d) without comparing the bytes that remain", c.pos(r.Pos()), p.Index)
+					default:
+						back(p, depth+1)
+					}
+				}
+			}
+			back(rb, 0)
+			c.check(bad == "", key, r.Pos(), "every path to this return ends with a mismatch, an exhausted slice or a clamped tail word", bad+": the reported common length can be too short (matches are not maximal)")
+		}
+	}
+}
